@@ -245,12 +245,19 @@ def _replay_chunk(edge_ids):
     out = []
     queries = 0
     tainted = 0
-    for ei in edge_ids:
+    for item in edge_ids:
+        # item = edge index, or (self-loop edge, following edge): BFS-tree paths never contain an edge that leaves
+        # the abstract state unchanged (a repeated register_proxy_cap), so it is replayed first
+        pre = []
+        if isinstance(item, tuple):
+            pre, ei = [g.edges[item[0]]], item[1]
+        else:
+            ei = item
         e = g.edges[ei]
         w = World(_NR, _IDS)
         hist = []
         bad = []
-        for pe in g.path_to(e["_s"]):
+        for pe in g.path_to(e["_s"]) + pre:
             bad += w.step(pe["act"], pe["out"], final=False)
             hist.append(pe["act"])
         bad += w.step(e["act"], e["out"], final=True)
@@ -294,7 +301,9 @@ def _b1(chk: Check, consts, label):
     if len(g.edges) < 100:
         raise common.MachineryError("Caps_MBT exported only %d edges" % len(g.edges))
     _G, _NR, _IDS = g, consts["NR"], make_ids(chk.rng, consts["NR"])
-    ids = g.reachable_edges()
+    pairs = g.selfloop_pairs()
+    ids = g.reachable_edges() + pairs
+    chk.cov["b1_selfloop_pairs_replayed"] = chk.cov.get("b1_selfloop_pairs_replayed", 0) + len(pairs)
     World(consts["NR"], _IDS)       # import the implementation once, before forking
     gc.collect()
     gc.freeze()                     # the exported graph is shared read-only with the workers
